@@ -116,9 +116,8 @@ def build(F):
         I.dataproj = dp
         A = anchors.get(F)
         I.primitives = {}
-        for role, h in (("read", _flag_read), ("set", _flag_set), ("clear", _flag_clear)):
-            if role in A.flag_fn:
-                I.primitives[A.flag_fn[role]] = h
+        # (the poison / kill flag methods are not summarised either: AtomicBool operations are modelled directly, so the flag
+        #  may be wrapped in private enums, helper methods, fetch_or / swap ... without changing any verdict)
         # the crate-private list helpers (ordered_*, get_locks*, duplicate checks, rollback helpers) are NOT summarised: they
         # are inlined wherever a public operation reaches them, so their names, number and shapes are free to change
         I.roles = {}
